@@ -285,8 +285,9 @@ def run_property(prop, repo, tier, seed, jobs, only=None, t0=None):
         "wall_s": round(time.time() - t0, 2),
         "violations": n_viol,
     }
-    os.makedirs(os.path.join(HERE, "evidence"), exist_ok=True)
-    with open(os.path.join(HERE, "evidence", "%s.json" % prop), "w") as f:
+    evdir = os.environ.get("VERIF_EVIDENCE_DIR") or os.path.join(HERE, "evidence")
+    os.makedirs(evdir, exist_ok=True)
+    with open(os.path.join(evdir, "%s.json" % prop), "w") as f:
         json.dump(ev, f, indent=1, default=str)
     print("%s: %d obligations, %d discharged (%d unbounded, %d shape-bounded), %d undecided, %d violations, "
           "%d known findings, %.1fs" % (prop, obligations, discharged, unb_obl, bounded_obl, len(undecided),
